@@ -457,3 +457,33 @@ def queue_accounting(ctx, r, rid):
 @rule(P, "C16.8", "T3", "the node queue's started/completed balance holds, so wait() returns and the node teardown hook is reached", min_obligations=2)
 def c16_8(ctx, r):
     queue_accounting(ctx, r, "C16.8")
+
+
+@rule(P, "C16.9", "T8+T6", "a failing teardown hook is logged, never raised or turned into the batch's status (results are still recorded, completion still marked)", min_obligations=3)
+def c16_9(ctx, r):
+    # (1) the status JobRunner.run_jobs hands back is the queue run's and nothing else's: the CLI triggers try-submit-jobs only on GOOD
+    fn = ctx.fn("JobRunner.run_jobs", "C16.9")
+    cfg = ctx.cfg(fn)
+    rets = [n for n in cfg.nodes if n.kind == "stmt" and isinstance(n.ast, ast.Return) and isinstance(n.ast.value, ast.Name)]
+    if not rets:
+        raise AnalysisError("C16.9", "JobRunner.run_jobs does not return a local status")
+    RES = rets[-1].ast.value.id
+    defs = [n for n in cfg.nodes if n.kind == "stmt" and isinstance(n.ast, (ast.Assign, ast.AugAssign)) and any(isinstance(t, ast.Name) and t.id == RES for t in (n.ast.targets if isinstance(n.ast, ast.Assign) else [n.ast.target]))]
+    for n in defs:
+        site = ctx.cg.site_of(fn, n.ast.value) if isinstance(n.ast.value, ast.Call) else None
+        r.check(site is not None and site.calls_short(ctx.ix, "JobRunner._run_jobs"), "the batch status is what the queue run returned", key_of(fn, f"batch status set by `{ctx.src(n.ast)[:40]}`"), fn.loc(n.ast),
+                f"`{ctx.src(n.ast)}` changes the status run_jobs returns: `jade-internal run-jobs` starts try-submit-jobs only for GOOD, so e.g. a failing node teardown command leaves the batch's result file uncollected "
+                "(and, for the last batch, the submission never completes)", "configuring them never prevents the batch's results from being recorded")
+    if not defs:
+        raise AnalysisError("C16.9", "no definition of the returned status found")
+    # (2) teardown hooks go through run_command (returns the exit code), not check_run_command (raises on non-zero)
+    for spec, fld in (("JobSubmitter._handle_completion", "teardown_command"), ("JobRunner.run_jobs", "node_teardown_command")):
+        f2 = ctx.fn(spec, "C16.9")
+        hs = hook_sites(ctx, f2, fld)
+        if not hs:
+            raise AnalysisError("C16.9", f"hook for {fld} not found in {spec}")
+        for s, reads, guarded in hs:
+            raising = s.calls_short(ctx.ix, "run_command.check_run_command")
+            r.check(not raising, f"{fld} runs through run_command (exit code is logged)", key_of(f2, f"HOOK({fld}) raises on failure"), s.loc,
+                    f"`{ctx.src(s.node)[:60]}` raises when the {fld} exits non-zero: " + ("the exception leaves _handle_completion before cluster.mark_complete(), so the flag is never set and every later try-submit-jobs runs the teardown again"
+                    if fld == "teardown_command" else "the exception leaves run_jobs before its status is returned: the node never triggers try-submit-jobs"), "the teardown command runs exactly once each time the submission completes ... before the completion flag is set, whether jobs passed or failed")
